@@ -105,8 +105,17 @@ pub fn judge_session(rep: &LoopReport) -> Judged {
                             continue;
                         }
                         Outcome::Aborted(Abort::NodeCap) => {
-                            // step cap under a depth-limited go: inconclusive, never a violation
-                            j.probes.add("inconclusive_step_cap", 1);
+                            let t: Vec<&str> = x.line.split_whitespace().collect();
+                            let clocked = t.contains(&"movetime") || t.contains(&"wtime") || t.contains(&"btime");
+                            if clocked {
+                                // the generator sizes every clock budget below 50 000 nodes under
+                                // this sim's cost model; 3 million nodes later the go is still
+                                // unanswered
+                                j.violations.push(("no_answer_under_a_clock".into(), format!("'{}' in {}: not answered within the step cap of 3 million nodes although the budget is worth fewer than 50 000", x.line, pos.to_fen())));
+                            } else {
+                                // step cap under a depth-limited go: inconclusive, never a violation
+                                j.probes.add("inconclusive_step_cap", 1);
+                            }
                             continue;
                         }
                         Outcome::Aborted(a) => {
